@@ -2,7 +2,9 @@
 //
 // extract: branch structure of the counter code (go/ast) + a table of updateAutoIncrementSafe
 // results dumped from the freshly compiled code.
-// run: histories of INSERT / DELETE / UPDATE / ALTER … AUTO_INCREMENT / TRUNCATE on one table, two
+// run: histories of INSERT / DELETE / UPDATE / ALTER … AUTO_INCREMENT / TRUNCATE / table rewrites
+// (ALTER TABLE … ADD COLUMN … NOT NULL DEFAULT / DROP COLUMN: the old rows are re-inserted straight
+// through the table editor, without AutoIncrement.Eval) on one table, two
 // sessions, against the real engine; the observation after every statement is the result class,
 // OK-packet InsertID, the raw counter, SHOW CREATE's AUTO_INCREMENT, LAST_INSERT_ID() of both
 // sessions and the (id, tag) dump. The model-free oracle evaluates the property on these.
@@ -318,7 +320,7 @@ func leanBig(v *big.Int) string {
 // Histories
 
 type op struct {
-	kind string   // ins del upd alt trunc
+	kind string   // ins del upd alt trunc rw
 	sess int      // ins
 	gs   []string // ins: "n" or integer text
 	form int      // ins: SQL rendering variant
@@ -335,6 +337,8 @@ func (o op) payload() string {
 		return "(upd " + o.a.String() + " " + o.b.String() + ")"
 	case "alt":
 		return "(alt " + o.a.String() + ")"
+	case "rw":
+		return "(rw)"
 	}
 	return "(trunc)"
 }
@@ -370,7 +374,9 @@ func (h hist) ddl() string {
 	return "CREATE TABLE t (id " + h.ct.name + " AUTO_INCREMENT, v INT, KEY (id))"
 }
 
-func (o op) sql(opIdx int) string {
+// sql renders the statement; extra = the table currently has the additional column w (added by a
+// rewrite), so INSERTs must list their columns; for "rw" it selects DROP COLUMN w over ADD COLUMN w.
+func (o op) sql(opIdx int, extra bool) string {
 	switch o.kind {
 	case "ins":
 		allN := true
@@ -396,7 +402,7 @@ func (o op) sql(opIdx int) string {
 			}
 			tuples = append(tuples, fmt.Sprintf("(%s,%d)", lit, opIdx*100+i))
 		}
-		if o.form%2 == 0 {
+		if o.form%2 == 0 && !extra {
 			return "INSERT INTO t VALUES " + strings.Join(tuples, ",")
 		}
 		return "INSERT INTO t (id, v) VALUES " + strings.Join(tuples, ",")
@@ -406,6 +412,11 @@ func (o op) sql(opIdx int) string {
 		return "UPDATE t SET id = " + o.b.String() + " WHERE id = " + o.a.String()
 	case "alt":
 		return "ALTER TABLE t AUTO_INCREMENT = " + o.a.String()
+	case "rw":
+		if extra {
+			return "ALTER TABLE t DROP COLUMN w"
+		}
+		return "ALTER TABLE t ADD COLUMN w INT NOT NULL DEFAULT 7"
 	}
 	return "TRUNCATE TABLE t"
 }
@@ -463,7 +474,8 @@ func runHist(e *eng.Eng, h hist) (obs string, fails [][2]string, feats map[strin
 	var log []ev
 	prevLast := []string{"0", "0"}
 	counterBefore := new(big.Int).SetInt64(1)
-	lastAlter := "" // region of the most recent lowering ALTER since the last TRUNCATE
+	lastAlter := "" // region of the most recent lowering ALTER / rewrite since the last TRUNCATE
+	hasW := false   // the table currently has the extra column w
 	var prevRows []row
 	fail := func(tag, desc string) { fails = append(fails, [2]string{tag, desc}) }
 
@@ -472,8 +484,11 @@ func runHist(e *eng.Eng, h hist) (obs string, fails [][2]string, feats map[strin
 		if o.kind == "ins" {
 			sess = o.sess
 		}
-		text := o.sql(k)
+		text := o.sql(k, hasW)
 		r := q(sess, text)
+		if o.kind == "rw" && r.Class() == "ok" {
+			hasW = !hasW
+		}
 		res := ""
 		switch {
 		case r.Class() != "ok":
@@ -561,6 +576,46 @@ func runHist(e *eng.Eng, h hist) (obs string, fails [][2]string, feats map[strin
 				feats["alter-lower"] = true
 			} else {
 				feats["alter-raise"] = true
+			}
+		case "rw":
+			feats["rewrite"] = true
+			// The rows re-inserted by the rewrite never pass through AutoIncrement.Eval. Demands: the
+			// statement succeeds, keeps the rows, and does not lower the counter. The unchanged code
+			// re-derives the counter from the stored rows alone (largest id + 1, saturating), so it
+			// forgets a counter that was above that: region rewrite_lowers_counter, decided on the
+			// state before the statement.
+			want := big64(1)
+			for _, rw := range prevRows {
+				if rw.id.Cmp(want) >= 0 {
+					want = new(big.Int).Add(rw.id, big64(1))
+					if want.Cmp(h.ct.hi) > 0 {
+						want = new(big.Int).Set(rw.id)
+					}
+				}
+			}
+			inRegion := counterBefore.Cmp(want) > 0
+			if inRegion {
+				feats["rewrite-counter-above-rows"] = true
+			}
+			for _, rw := range prevRows {
+				if rw.id.Cmp(big64(1)) > 0 && len(prevRows) > 1 {
+					feats["rewrite-with-rows"] = true
+				}
+			}
+			if !strings.HasPrefix(res, "ok") {
+				fail("-", fmt.Sprintf("op %d `%s` failed (%s)", k, text, res))
+				break
+			}
+			if fmt.Sprint(dumpOf(prevRows)) != fmt.Sprint(dump) {
+				fail("-", fmt.Sprintf("op %d `%s` changed the (id, v) rows", k, text))
+			}
+			if now, ok := new(big.Int).SetString(rawCtr, 10); ok && now.Cmp(counterBefore) < 0 {
+				tag := "-"
+				if inRegion && now.Cmp(want) >= 0 {
+					tag = "rewrite_lowers_counter"
+					lastAlter = tag
+				}
+				fail(tag, fmt.Sprintf("op %d `%s` (table rewrite) lowered the AUTO_INCREMENT counter from %s to %s (largest stored id: counter should stay ≥ %s)", k, text, counterBefore, rawCtr, want))
 			}
 		case "del":
 			feats["delete"] = true
@@ -694,7 +749,7 @@ func genHist(r *hx.Rand, thorough bool) hist {
 	allowLower := r.Chance(1, 4)
 	for i := 0; i < n; i++ {
 		switch x := r.Intn(100); {
-		case x < 58:
+		case x < 54:
 			o := op{kind: "ins", sess: r.Intn(2), form: r.Intn(12)}
 			rows := 1 + r.Intn(4)
 			for j := 0; j < rows; j++ {
@@ -716,16 +771,20 @@ func genHist(r *hx.Rand, thorough bool) hist {
 				}
 			}
 			h.ops = append(h.ops, o)
-		case x < 70:
+		case x < 66:
 			a := val()
 			b := new(big.Int).Add(a, big64(int64(r.Intn(4))))
 			if r.Chance(1, 4) {
 				a, b = new(big.Int).Set(h.ct.lo), new(big.Int).Set(h.ct.hi) // delete everything
 			}
 			h.ops = append(h.ops, op{kind: "del", a: a, b: b})
-		case x < 80:
+		case x < 75:
 			h.ops = append(h.ops, op{kind: "upd", a: val(), b: val()})
-		case x < 93:
+		case x < 84:
+			// table rewrite: the stored rows (with whatever gaps explicit ids, deletes and updates
+			// left) are re-inserted through the editor
+			h.ops = append(h.ops, op{kind: "rw"})
+		case x < 95:
 			var v *big.Int
 			switch {
 			case allowLower && r.Chance(1, 2):
@@ -764,7 +823,19 @@ func corpus() []hist {
 	alt := func(v string) op { return op{kind: "alt", a: bi(v)} }
 	del := func(a, b string) op { return op{kind: "del", a: bi(a), b: bi(b)} }
 	upd := func(a, b string) op { return op{kind: "upd", a: bi(a), b: bi(b)} }
+	rw := op{kind: "rw"}
+	i32 := colTypes[4]
 	return []hist{
+		// table rewrites: rows reach the editor without AutoIncrement.Eval — gaps from an explicit id,
+		// from a delete in the middle, from an update; two rewrites in a row; negative ids only; saturated
+		{ct: i32, key: "pk", ops: []op{ins(0, "n", "n", "n"), ins(0, "10"), rw, ins(0, "n"), ins(1, "n", "n"), rw, ins(0, "n")}},
+		{ct: t8, key: "uniq", ops: []op{ins(0, "n", "n", "n", "n"), del("2", "3"), rw, ins(0, "n"), upd("1", "20"), rw, ins(1, "n")}},
+		{ct: t8, key: "key", ops: []op{ins(0, "5"), rw, ins(0, "n"), ins(0, "-3"), del("1", "127"), rw, ins(0, "n")}},
+		{ct: t8, key: "key", ops: []op{ins(0, "126"), ins(0, "n", "n"), rw, ins(0, "n")}},
+		{ct: u8, key: "pk", ops: []op{ins(0, "254"), ins(0, "n"), rw, ins(0, "n"), del("255", "255"), rw, ins(0, "n")}},
+		// a rewrite forgets a counter that was above the stored rows (after a delete / an ALTER)
+		{ct: t8, key: "pk", ops: []op{ins(0, "n", "n", "n"), ins(0, "10"), del("10", "10"), rw, ins(0, "n")}},
+		{ct: i32, key: "pk", ops: []op{ins(0, "n", "n"), alt("50"), rw, ins(0, "n"), op{kind: "trunc"}, rw, ins(0, "n")}},
 		// DESIGN §8 F-C20-a: ALTER lowers the counter below an existing id
 		{ct: t8, key: "pk", note: "F-C20-a", ops: []op{ins(0, "n", "n"), ins(0, "127"), alt("60"), ins(0, "n")}},
 		// ALTER below the counter after deletes: ids are handed out again
@@ -791,8 +862,8 @@ func run(a hx.RunArgs) error {
 	out := hx.NewOut(a.OutDir)
 	defer out.Close()
 	out.Rule = "one case = one history (3-16 statements: plain INSERT with NULL/DEFAULT/0/explicit/negative/out-of-range values and 1-4 rows, " +
-		"DELETE, UPDATE of the id, ALTER … AUTO_INCREMENT raising and lowering, TRUNCATE) on one table (8 integer types × PK/UNIQUE/KEY, values small or near the type maximum), two sessions; " +
-		"non-trivial = at least one value was generated and the history also contains an explicit id above the counter, a delete, a failed insert or an ALTER"
+		"DELETE, UPDATE of the id, ALTER … AUTO_INCREMENT raising and lowering, TRUNCATE, table rewrites ALTER TABLE … ADD COLUMN w … NOT NULL DEFAULT / DROP COLUMN w that re-insert the stored rows through the editor) on one table (8 integer types × PK/UNIQUE/KEY, values small or near the type maximum), two sessions; " +
+		"non-trivial = at least one value was generated and the history also contains an explicit id above the counter, a delete, a failed insert, an ALTER or a table rewrite"
 	r := hx.NewRand(a.Seed)
 	n := 500
 	if a.Thorough {
@@ -832,7 +903,7 @@ func run(a hx.RunArgs) error {
 	wg.Wait()
 	for i, h := range hs {
 		obs, fails, feats := results[i].obs, results[i].fails, results[i].feats
-		nontriv := feats["generated"] && (feats["explicit-above-counter"] || feats["delete"] || feats["failed-insert"] || feats["alter-lower"] || feats["alter-raise"])
+		nontriv := feats["generated"] && (feats["explicit-above-counter"] || feats["delete"] || feats["failed-insert"] || feats["alter-lower"] || feats["alter-raise"] || feats["rewrite"])
 		id := out.Case(h.payload(), obs, nontriv)
 		out.Stat("type:" + h.ct.name)
 		out.Stat("key:" + h.key)
